@@ -6,13 +6,15 @@ PROP = dict(
     tie_modules=["M3d.Lemmas.KernelsTieBox", "M3d.Lemmas.KernelsTieSlab"],
     corr_theorems=(
         "hierarchical queries (kinds j3/j2/o3): M3d.C08.joined_ray_eq_concat, joined_first_eq_min, joined_sphere_iff, "
-        "multi_segment_eq, multi_rect_eq, multi_triangle_eq, joined2_*, bvh_object_cast_eq_min, nary_bvh_object_cast_eq_min, "
+        "multi_segment_eq, multi_rect_eq / multi_rect_iff / multi2_rect_iff (the members are asked the caller's box itself; "
+        "clip_contains(2): the intersection with the node bounds is only a point-set statement), multi_triangle_eq, joined2_*, bvh_object_cast_eq_min, nary_bvh_object_cast_eq_min, "
         "nary_bvh_collider_ray together with grouped_collider_wf / bvh_collider_wf / nary_bvh_collider_wf(2) (shapes of L/J nodes - "
         "BVHs with branches of any width, nests of joined colliders - are converted by bvhJoin) / flatten_same_leaves (the driver prints "
         "the pruned traversal and, for sound leaves, checks it against the "
         "linear scan); d3/d2: mesh_dist_eq_min(2); kd3/kd2: kd_invariant, kd_contains_iff, kd_nn_eq_min, kd_knn_eq_k_smallest, "
         "kd_knn_points_stored, kd_sphere_iff (run on the REAL tree), knntab: kd_knn_table_eq_scan (answers kept by the caller and read "
-        "after later queries); group/bvh: group_bounders_perm, bvh_leaves_perm; slab/pbd kinds validate the faithful "
+        "after later queries); group/bvh: group_bounders_perm, bvh_leaves_perm; bvhx (the exact tree of NewBVHAreaDensity rebuilt by the faithful newBVH "
+        "with the real split rule bvhSplit/areaDensitySplit): bvh_area_density_perm, area_density_split_in_range; slab/pbd kinds validate the faithful "
         "models of rayCollisionWithBounds / pointToBoundsDistSquared used by slab_prefilter_sound, slab_prefilter_exact, "
         "slab_segment_prefilter_exact, slab_direction_length_irrelevant (the model's decision IS 'the ray / segment meets the box', "
         "for directions of every length), pt_box_dist_lower_bound, sphere_prefilter_sound"
@@ -25,11 +27,19 @@ PROP = dict(
         "direction multiplied by 2^-100..2^100 (un-normalised, very short / long directions; canned hits move to t/sigma), directions "
         "with components of very different magnitude (2^-40..4, origin a tiny amount outside a slab), very short segments, and 15-20% "
         "of the scenes (boxes, primitives, clouds, queries, radii) are multiplied as a whole by 2^-40..2^30 - all exact in float64. "
-        "Synthetic leaves (canned answers, sound or deliberately unsound) "
+        "Real sets include axis-aligned geometry whose INNER nodes have zero-thickness bounds (whole sets in one axis plane, 1..3 "
+        "common planes, closed box meshes with two triangles per face, rectangle outlines / collinear runs in 2-D) and box queries that "
+        "pierce a face / cross a segment in its interior (small boxes of half-width 0..1 around interior points, across the plane of a flat "
+        "primitive): the leaf tests are edge tests, so the members must be asked the caller's box (#stat ...rect_queries_piercing_a_face_under_a_flat_node). "
+        "Synthetic leaves (canned answers, sound or deliberately unsound) are functions of the query they are asked: the canned answer "
+        "belongs to the caller's query (compared by value), any other query (clipped box, shortened segment, moved ray) gets 'nothing' and "
+        "a negative trace entry; they "
         "record which leaves the real hierarchy code evaluates; real triangles / segments / points are compared three ways "
         "(implementation, Lean model, harness linear scan). BVHToObject / BVHToCollider also get hand-made BVHs whose branches have 2..5 "
         "(or all) children, objects in any order. Multi-step: tables of 2..6 consecutive KNN queries whose returned slices are kept and read "
-        "after the last query; kept TriangleCollisions answers are re-read after all queries on a set. distinct = distinct operation lines"
+        "after the last query; kept TriangleCollisions answers are re-read after all queries on a set. bvhx: the per-axis orders of the real "
+        "sortBounders (hook) + the boxes -> the model must rebuild the exact NewBVHAreaDensity tree (scores exact on half-integer boxes). "
+        "CoordTree.Dist / Empty / Leaf are compared with sqrt(min squared distance) / n == 0 / n <= 1. distinct = distinct operation lines"
     ),
     trusted=[
         "regenerated, not hand-written: lean/M3d/Gen/Kernels.lean (Go->Lean translator harness/hlib/go2lean, run on the current "
@@ -43,7 +53,8 @@ PROP = dict(
         "knnResults.MaxDist is knnMaxDist; JoinedCollider.rayCollidesWithBounds, knnResults.Insert, bestSplitAxis, splitBounders, "
         "areaDensityBVHSplit are outside the translator's subset and tied by the correspondence kinds only",
         "modelled, not verified: slices returned by queries are values (that a later call does not overwrite an earlier answer is checked by "
-        "the knntab kind / kept TriangleCollisions slices, not derived from a heap model; concurrent queries are not exercised); pointers as ids; sort.Slice as an arbitrary permutation per axis; areaDensityBVHSplit as an arbitrary in-range split oracle; "
+        "the knntab kind / kept TriangleCollisions slices, not derived from a heap model; concurrent queries are not exercised); pointers as ids; sort.Slice as an arbitrary permutation per axis; areaDensityBVHSplit / the axis choice of newBVH are modelled faithfully (areaDensitySplit, bvhSplit; generic functions, "
+        "outside the translator's subset) and tied by the bvhx kind only, the permutation theorem bvh_leaves_perm holds for EVERY in-range split oracle; "
         "splitBounders' index arithmetic as a stable partition (equal under the proved invariant, theorem split_positions)",
         "leaf behaviour (Triangle/Segment ray, sphere, segment, rect, triangle tests; Closest/Dist) is a parameter of the theorems: the only hypothesis is "
         "that what a leaf reports lies in its own bounding box (LeafSound3/2) - whether the real triangle code satisfies it under floating-point "
@@ -60,8 +71,10 @@ PROP = dict(
         "forests); the bounding-box prefilters of bvh.go never reject a query that meets the box (slab test incl. zero direction components, "
         "sphere/box incl. touching, box/box incl. touching, point-to-box distance is a lower bound); on non-empty boxes the slab test is exact "
         "(admits iff some t >= 0, resp. 0 <= t <= 1, has its point in the box) and therefore independent of the length of the direction vector; GroupBounders / newBVH / NewCoordTree only "
-        "permute their input for every comparison, axis and split oracle; NewJoinedCollider's flattening keeps the leaves; JoinedCollider / "
-        "joinedMultiCollider / BVHToObject / BVHToCollider queries equal the scan over the leaves, for binary and for n-ary BVHs (every object of "
+        "permute their input for every comparison, axis and split oracle, and NewBVHAreaDensity with its real split rule (areaDensityBVHSplit cuts "
+        "strictly inside, 2 <= index < n) terminates with every object exactly once; NewJoinedCollider's flattening keeps the leaves; JoinedCollider / "
+        "joinedMultiCollider / BVHToObject / BVHToCollider queries equal the scan over the leaves asked the caller's own query (a box query is "
+        "not replaced by its intersection with a node's bounds: non-vacuity example with a zero-thickness node), for binary and for n-ary BVHs (every object of "
         "every child of every branch exactly once); meshDistFunc.Dist returns a face at minimal distance; "
         "CoordTree Contains / NearestNeighbor / KNN / SphereCollision equal membership / argmin / k smallest sorted (stored points, own "
         "distances, multiplicities respected) / exists-within-radius; a table of KNN answers read after all queries equals the table of "
@@ -72,7 +85,8 @@ PROP = dict(
     level_note=(
         "Proved about the models in lean/M3d/Model/{Prune,Box,Spatial}.lean. Trusted: Lean kernel, propext/Classical.choice/Quot.sound, the Go "
         "harness and the driver, the modelling of pointers/sorting/split oracles listed above. Leaf routines are parameters (hypothesis: sound "
-        "w.r.t. own box). areaDensityBVHSplit's score arithmetic is not modelled (any in-range split is covered by bvh_leaves_perm). "
+        "w.r.t. own box). The bvhx / group kinds replay the split heuristics exactly: an edit of a heuristic that keeps every object shows up as a "
+        "model/implementation difference, not as a failing query. "
         "Exactness / length-independence of the slab test assume min <= max per axis (soundness does not)."
     ),
 )
